@@ -224,7 +224,22 @@ func detectZIPFormat(r io.ReaderAt, size int64) (Format, error) {
 		}
 	}
 
-	// Check for Office Open XML markers
+	// Check for the Office Open XML main parts first. Members are stored in no
+	// particular order and a package may embed parts of another kind (a workbook
+	// inside a document under word/embeddings/, say), so the first directory
+	// prefix met in archive order does not identify the format.
+	for _, f := range zr.File {
+		switch f.Name {
+		case "word/document.xml":
+			return DOCX, nil
+		case "xl/workbook.xml":
+			return XLSX, nil
+		case "ppt/presentation.xml":
+			return PPTX, nil
+		}
+	}
+
+	// Fall back to directory prefixes for packages with a non-standard main part name
 	for _, f := range zr.File {
 		switch {
 		case f.Name == "[Content_Types].xml":
